@@ -9,6 +9,7 @@ from __future__ import unicode_literals
 
 import datetime
 import functools
+import math
 import re
 
 import six
@@ -202,6 +203,12 @@ def dump_quantity(quantity, version=LATEST_VER):
 
 
 def dump_decimal(decimal, version=LATEST_VER):
+    if isinstance(decimal, float):
+        # The grammar spells the non-finite values INF, -INF and NaN.
+        if math.isnan(decimal):
+            return 'NaN'
+        elif math.isinf(decimal):
+            return 'INF' if decimal > 0 else '-INF'
     return str(decimal)
 
 
